@@ -284,6 +284,28 @@ int hook_mutex_trylock(pthread_mutex_t *m) {
     sync_acquire(m, me);
     return rc;
 }
+// A timed lock: there is no clock in this simulation, and under arbitrary scheduling delays a deadline can pass at
+// any moment while the mutex is held by somebody else.  So whenever the mutex is busy the scheduler's PRNG decides
+// between "the deadline passed" (ETIMEDOUT, legal at any time) and "keep waiting" (block until it is released).
+int hook_mutex_timedlock(pthread_mutex_t *m, const struct timespec *) {
+    int me = tls_tid;
+    if (me < 0 || !RT.active) return simos_real_mutex_lock(m);
+    yield_point(Y_LOCK, 5);
+    for (;;) {
+        auto it = RT.mutex_owner.find(m);
+        if (it == RT.mutex_owner.end()) break;
+        if (it->second == me) return EDEADLK;
+        if (RT.sched.below(2) == 0) { RT.counters["fault.timed_lock_deadline_passed"]++; return ETIMEDOUT; }
+        RT.T[me].state = T_BLOCKED_MUTEX; RT.T[me].blocked_on = m;
+        RT.counters["probe.lock_contended"]++;
+        reschedule_blocked(me);
+    }
+    RT.mutex_owner[m] = me;
+    int rc = simos_real_mutex_lock(m);
+    sync_acquire(m, me);
+    yield_point(Y_LOCKED, 5);
+    return rc;
+}
 int hook_nanosleep(const struct timespec *, struct timespec *) { yield_point(Y_SYSCALL, 4); return 0; }
 
 } // namespace simrt
